@@ -26,7 +26,7 @@ PRE_Q = ("From Coq Require Import QArith PrimFloat.\nFrom EsVerif.Common Require
 PRE_CERT_SPEC = ("From Coq Require Import Reals.\nFrom Interval Require Import Tactic.\n"
                  "From EsVerif.C08 Require Import Model Spec Proofs.\nOpen Scope R_scope.\n")
 PRE_CERT = ("From Coq Require Import Reals.\nFrom Interval Require Import Tactic.\n"
-            "From EsVerif.C08 Require Import Model Spec Proofs Code.\nOpen Scope R_scope.\n")
+            "From EsVerif.C08 Require Import Model Spec Proofs Code SrcLib Src SrcProofs.\nOpen Scope R_scope.\n")
 UNFOLD = "cbv [from_rad r2d sep_small sep_large dminus dplus cx cy cz to_rad d2r tol_in]"
 
 TOL = {"sphdist": "1e-11", "gcirc": "2e-6"}            # degrees, from the statement
@@ -350,13 +350,13 @@ def cert_lemma(item, with_model, prec=None, refute=False):
     prec = prec or (100 if fn == "sphdist" else 70)
     vals = "%s %s" % (" ".join(cR(x) for x in p), cR(out))
     spec = "sep_ok %s %s %s %s" % (UNIT[uin], UNIT[uout], TOL[fn], vals)
-    reduce_ = "unfold sep_ok. rewrite true_sep_%s by (%s; interval with (i_prec %d)). %s." % (form, UNFOLD, prec, UNFOLD)
+    reduce_ = "unfold sep_ok. rewrite true_sep_%s by (%s; interval with (i_prec %d)). %s." % (form, UNFOLD, min(prec, 40), UNFOLD)
     if refute:
         return "~ " + spec, "%s apply Rlt_not_le. interval with (i_prec %d)." % (reduce_, prec)
     if with_model:
-        st = ("sphdist_cert %s %s %s %s" % (UNIT[uin], UNIT[uout], TOL[fn], vals)) if fn == "sphdist" else \
-             ("gcirc_cert %s %s" % (TOL[fn], vals))
-        return st, "apply %s_cert_intro. %s interval with (i_prec %d)." % (fn, reduce_, prec)
+        st = ("sphdist_src_cert %s %s %s %s" % (UNIT[uin], UNIT[uout], TOL[fn], vals)) if fn == "sphdist" else \
+             ("gcirc_src_cert %s %s" % (TOL[fn], vals))
+        return st, "apply %s_src_cert_intro. %s interval with (i_prec %d)." % (fn, reduce_, prec)
     return spec, "%s interval with (i_prec %d)." % (reduce_, prec)
 
 
@@ -365,7 +365,7 @@ def certify(ctx, items, with_model, tag):
     refutation lemma.  Returns the number of violations reported."""
     pre = PRE_CERT if with_model else PRE_CERT_SPEC
     lem = [cert_lemma(it, with_model) for it in items]
-    res = core.coq_lemmas(os.path.join(ctx.work, tag), pre, lem, shard=ctx.n(8, 20), tag=tag)
+    res = core.coq_lemmas(os.path.join(ctx.work, tag), pre, lem, shard=max(6, -(-len(lem) // core.NCPU)) if ctx.quick() else 20, tag=tag)
     ctx.checker_cmds.append("coqc <%d generated lemmas %s; closed by interval>" % (len(lem), tag))
     nviol = 0
     redo = [i for i, (ok, _) in enumerate(res) if not ok]
@@ -397,7 +397,7 @@ def certify(ctx, items, with_model, tag):
             ctx.violation("%s: output outside the statement's tolerance" % it["fn"],
                           {"kind": "certificate", "entry": "cert", "case": it, "detail": what,
                            "negation_proved": bool(refuted), "class": "%s:tolerance" % it["fn"],
-                           "no_longer_checks": "per-case certificate %s_cert (C08_certificate_ties_model)" % it["fn"]},
+                           "no_longer_checks": "per-case certificate %s_src_cert (C08_certificate_ties_source)" % it["fn"]},
                           found_input=bool(refuted))
     return nviol
 
@@ -461,6 +461,18 @@ TRUSTED = [
 ]
 
 
+def tag_classes(ctx):
+    """one VIOLATION line per class of failing call (ctx.finish prints one line per distinct text)"""
+    import json
+    for v in ctx.violations:
+        try:
+            cls = json.load(open(v["replay"])).get("class")
+        except Exception:  # noqa
+            cls = None
+        if cls and ("[%s]" % cls) not in v["what"]:
+            v["what"] += " [%s]" % cls
+
+
 def run(ctx, replay=None):
     ctx.rule = ("pairs from the families of the quantifier (uniform; separations 1e-12..1e-3 deg; 180-1e-13..180 deg and exactly "
                 "antipodal inputs; the whole large-angle branch and its threshold; poles; seam; identical inputs; same "
@@ -482,6 +494,20 @@ def run(ctx, replay=None):
         ctx.violation("translation of the constants of sphdist/gcirc failed: %s" % e,
                       {"kind": "translation", "error": str(e),
                        "no_longer_checks": "tie of C08/Gen.v (sphdist_thr, gcirc_clip_lo/hi) to esutil/coords.py"},
+                      found_input=False)
+    # 1b. the formulas: element-wise reading of the source text -> Src.v (SrcProofs.v proves it is the model)
+    try:
+        changed = c08_translate.regenerate_source(ctx.impl, core.COQDIR)
+        ctx.obligation("Src.v regenerated from esutil/coords.py (_thetaphi2xyz, eq2xyz, sphdist, gcirc)%s" % (
+            " [changed]" if changed else ""), True)
+    except c08_translate.TranslateError as e:
+        gen_ok = False
+        ctx.obligation("Src.v regenerated from esutil/coords.py", False, str(e))
+        ctx.violation("translation of the source of sphdist/gcirc failed (the code no longer has a shape whose "
+                      "element-wise reading is known): %s" % e,
+                      {"kind": "translation", "error": str(e),
+                       "no_longer_checks": "tie of C08/Src.v (thetaphi2xyz_src, eq2xyz_src, sphdist_src, gcirc_src) to "
+                                           "esutil/coords.py; theorems C08_source_is_model, C08_source_exact"},
                       found_input=False)
     # 2. theorems
     proofs_ok = core.proof_step(ctx, "C08", core.ALLOW_INTERVAL)
@@ -506,12 +532,13 @@ def run(ctx, replay=None):
         return
     # 4. exact-rational checks on every call
     differential(ctx, PRE_Q, entries, replay)
+    tag_classes(ctx)
     if replay is not None:
         return
     ctx.count("observed:RuntimeWarning-raised-inside-esutil", WARN_COUNT["n"])
     # 5. certificates
     import time
     t0 = time.time()
-    items = cert_pool(entries, ctx, ctx.n(260, 4200))
+    items = cert_pool(entries, ctx, ctx.n(176, 4200))
     certify(ctx, items, with_model, "cert")
     ctx.count("wall_s:certificates", round(time.time() - t0, 1))
